@@ -1,4 +1,5 @@
 import MosnVerif.Lemmas.PoolSpec
+import MosnVerif.Lemmas.StreamOnce
 /-!
 # C09 — upstream connection pools: exclusive leases, no leaks, no dirty reuse (property theorems only)
 
@@ -189,5 +190,134 @@ example : (reach .pp 1 0 [.newStream .timeout, .newStream .refused]).total = 0 :
 -- connection limit reached, then freed by a remote close of the leased connection
 example : ((trace (init .pp 1 0) [.newStream .ok, .newStream .ok, .connClose 0 true, .newStream .ok]).map (·.1)) =
     [.ok 0, .overflow, .none, .ok 1] := by decide
+
+/-! ## concurrent `ResetStream` / `DestroyStream` calls on one stream (the schedules of the quantifier)
+
+`Model/StreamOnce.lean`: any number of goroutines, each issuing any list of `ResetStream` / `DestroyStream` calls on ONE
+`BaseStream`, interleaved step by step (atomic accesses of `state`, `Lock` / `Unlock`, listener loops) by an arbitrary
+schedule.  The step programs are regenerated (`Gen/StreamOnce.lean`). -/
+section Concurrent
+open MosnVerif.Model.StreamOnce MosnVerif.Gen.StreamOnce
+
+/-- the tie's precondition: in the Go source every atomic access of `state` and every `Lock` of the two methods is
+directly preceded by a verif yield point naming it, so the harness' scheduler can stop a goroutine before each. -/
+theorem yield_sites_cover_atomics : yieldCovered = true := by decide
+
+/-- the regenerated programs are in the class the invariant is proved for: `DestroyStream` passes ONE compare-and-swap
+from the live state before anything else it does to the stream; `ResetStream` only load-guards, notifies and calls it. -/
+theorem gen_progs_good : good genProgs = true := by decide
+
+/-- for EVERY pair of step programs of that class, every set of goroutines and every schedule. -/
+theorem destroy_once_concurrent_of_good (P : Progs) (hP : good P = true) (ts : List (List Call)) (sched : List Nat) :
+    let c := (Conf.init P ts).run P sched
+    c.destroys ≤ 1 ∧ (c.state = 0 → c.destroys = 0) ∧ c.resets ≤ resetCalls ts * rcount P.reset ∧
+    (c.done = true → (∃ l ∈ ts, l ≠ []) → c.destroys = 1 ∧ c.state ≠ 0) := by
+  intro c
+  simp only [good, Bool.and_eq_true, beq_iff_eq] at hP
+  obtain ⟨⟨hgd, hgr⟩, hrc⟩ := hP
+  obtain ⟨new, body, hD⟩ := goodD_shape P.destroy hgd
+  have hinv : Inv new body ts c := inv_run hD _ (inv_init hD hgr ts) sched
+  have hFd : c.destroys ≤ F c := by simp only [F]; omega
+  have hG : c.resets ≤ resetCalls ts * rcount P.reset := by
+    have h1 := G_run P hrc (Conf.init P ts) sched
+    rw [G_init P hrc ts] at h1
+    have h2 : c.resets ≤ G c := by simp only [G]; omega
+    exact Nat.le_trans h2 h1
+  refine ⟨?_, ?_, hG, ?_⟩
+  · by_cases hs : c.state = 0
+    · have := (hinv.live hs).1; omega
+    · have := hinv.dead hs; omega
+  · intro hs; have := (hinv.live hs).1; omega
+  · intro hdone ⟨l0, hl0, hne⟩
+    have hall : ∀ l ∈ c.threads, l = [] := by
+      intro l hl
+      have := List.all_eq_true.mp hdone l hl
+      simpa using this
+    have hs : c.state ≠ 0 := by
+      intro hs
+      obtain ⟨t, ht⟩ := List.getElem?_of_mem hl0
+      obtain ⟨l, hl, hw⟩ := (hinv.live hs).2.2 t l0 ht hne
+      rw [hall l (List.mem_of_getElem? hl)] at hw
+      exact absurd hw (by decide)
+    have hF := hinv.dead hs
+    have hz : (c.threads.map fires).sum = 0 :=
+      sum_zero_of_all fires _ (fun x hx => by rw [hall x hx]; rfl)
+    simp only [F, hz] at hF
+    exact ⟨by omega, hs⟩
+
+/-- **destroy_once_concurrent**: for every number of goroutines, every list of `ResetStream` / `DestroyStream` calls
+each of them issues on one stream and EVERY schedule of their atomic steps, the destroy listeners are notified at most
+once, and never while `state` still says the stream is live; the reset listeners are notified at most once per
+`ResetStream` call — at most once when at most one of the overlapping calls is a `ResetStream` (a timeout's reset
+overlapping the completion's `DestroyStream`). -/
+theorem destroy_once_concurrent (ts : List (List Call)) (sched : List Nat) :
+    let c := (Conf.init genProgs ts).run genProgs sched
+    c.destroys ≤ 1 ∧ (c.state = 0 → c.destroys = 0) ∧ c.resets ≤ resetCalls ts ∧ (resetCalls ts ≤ 1 → c.resets ≤ 1) := by
+  intro c
+  have h := destroy_once_concurrent_of_good genProgs gen_progs_good ts sched
+  have hr : rcount genProgs.reset = 1 := by decide
+  rw [hr, Nat.mul_one] at h
+  exact ⟨h.1, h.2.1, h.2.2.1, fun h1 => Nat.le_trans h.2.2.1 h1⟩
+
+/-- … and exactly once as soon as every call has returned (at least one call was made): no schedule loses the
+destruction, whoever wins the CAS delivers it. -/
+theorem destroy_exactly_once_when_returned (ts : List (List Call)) (sched : List Nat)
+    (hcall : ∃ l ∈ ts, l ≠ []) (hdone : ((Conf.init genProgs ts).run genProgs sched).done = true) :
+    ((Conf.init genProgs ts).run genProgs sched).destroys = 1 ∧ ((Conf.init genProgs ts).run genProgs sched).state ≠ 0 :=
+  (destroy_once_concurrent_of_good genProgs gen_progs_good ts sched).2.2.2 hdone hcall
+
+/-- the executable predicate of the `once` cases holds of every model configuration. -/
+theorem once_spec_holds_on_model (ts : List (List Call)) (sched : List Nat) :
+    let c := (Conf.init genProgs ts).run genProgs sched
+    onceSpec (resetCalls ts) (ts.map List.length).sum c.done c.state c.resets c.destroys = true := by
+  intro c
+  have h := destroy_once_concurrent ts sched
+  have hcalls : (ts.map List.length).sum ≠ 0 → ∃ l ∈ ts, l ≠ [] := by
+    intro hn
+    by_cases hex : ∃ l ∈ ts, l ≠ []
+    · exact hex
+    · exfalso; apply hn
+      have : ∀ l ∈ ts, l = [] := fun l hl => Classical.byContradiction (fun hne => hex ⟨l, hl, hne⟩)
+      clear hn hex h
+      induction ts with
+      | nil => rfl
+      | cons a r ih =>
+        simp only [List.map_cons, List.sum_cons]
+        rw [this a (by simp), ih (fun l hl => this l (by simp [hl]))]; rfl
+  simp only [onceSpec, Bool.and_eq_true, Bool.or_eq_true, decide_eq_true_eq, Bool.not_eq_true', beq_iff_eq, bne_iff_ne, ne_eq]
+  refine ⟨⟨⟨h.1, h.2.2.1⟩, ?_⟩, ?_⟩
+  · by_cases hd : c.done = true
+    · by_cases hn : (ts.map List.length).sum = 0
+      · exact Or.inl (Or.inr hn)
+      · have := destroy_exactly_once_when_returned ts sched (hcalls hn) hd
+        exact Or.inr ⟨this.1, this.2⟩
+    · left; left; simpa using hd
+  · by_cases hz : c.destroys = 0
+    · exact Or.inl hz
+    · right; intro hs; exact hz (h.2.1 hs)
+
+/-! ### witnesses (machine-checked) -/
+-- the exactly-once guard written as "load, then store under the stream lock": two destroyers that both load before
+-- either stores notify the destroy listeners TWICE (goroutines 0 and 1 each issue one DestroyStream)
+example : ((Conf.init loadStoreProgs [[.destroy], [.destroy]]).run loadStoreProgs
+    [0, 0, 1, 1, 0, 0, 0, 0, 0, 0, 0, 1, 1, 1, 1, 1, 1, 1]).destroys = 2 := by decide
+-- the same with the seeded overlap: a timeout's ResetStream (goroutine 0) is still notifying its listeners when the
+-- completion's DestroyStream (goroutine 1) passes its load
+example : ((Conf.init loadStoreProgs [[.reset], [.destroy]]).run loadStoreProgs
+    [0, 0, 0, 0, 1, 1, 0, 0, 0, 0, 0, 0, 0, 0, 0, 0, 0, 0, 1, 1, 1, 1, 1, 1, 1]).destroys = 2 := by decide
+example : good loadStoreProgs = false := by decide
+-- the current code under the same schedules: once
+example : ((Conf.init genProgs [[.reset], [.destroy]]).run genProgs
+    [0, 0, 0, 0, 1, 1, 0, 0, 0, 0, 0, 0, 0, 0, 0, 0, 0, 0, 1, 1, 1, 1, 1, 1, 1]).destroys = 1 := by decide
+-- a quirk of the code that exists, outside the property: two OVERLAPPING ResetStream calls both pass the load guard
+-- and both notify OnResetStream (the destroy still happens once) — hence "at most once per ResetStream call"
+def twoResets : Conf := (Conf.init genProgs [[.reset], [.reset]]).run genProgs
+  ([0, 0, 1, 1] ++ List.replicate 14 0 ++ List.replicate 8 1)
+example : twoResets.resets = 2 ∧ twoResets.destroys = 1 ∧ twoResets.done = true := by decide
+-- non-vacuity of `done`: a complete schedule exists
+example : ((Conf.init genProgs [[.reset, .destroy], [.destroy]]).run genProgs
+    ((List.replicate 25 0) ++ (List.replicate 10 1))).done = true := by decide
+
+end Concurrent
 
 end MosnVerif.Props.C09
